@@ -2648,6 +2648,25 @@ theorem ext_inj (a : Asg) {δ ε : Asg} (h : ext a δ = ext a ε) : δ = ε := b
 def tagKeys (δ : Asg) : List Name := δ.tags.map (·.1)
 def outKeys (δ : Asg) : List Name := δ.outs.map (·.1)
 
+/-- Tag lookup on the bare list. -/
+def lookupTag (t : List (Name × Tagged)) (n : Name) : Option Tagged := (t.find? (·.1 == n)).map (·.2)
+
+theorem lookupTag_append (t1 t2 : List (Name × Tagged)) (n : Name) :
+    lookupTag (t1 ++ t2) n = (lookupTag t1 n).or (lookupTag t2 n) := by
+  simp only [lookupTag, List.find?_append]
+  cases List.find? (fun x => x.1 == n) t1 <;> simp
+
+theorem lookupTag_some_mem {t : List (Name × Tagged)} {n : Name} {x : Tagged}
+    (h : lookupTag t n = some x) : n ∈ t.map (·.1) := by
+  simp only [lookupTag] at h
+  cases hf : List.find? (fun x => x.1 == n) t with
+  | none => simp [hf] at h
+  | some kv =>
+    have h1 := List.find?_some hf
+    have h2 := List.mem_of_find?_eq_some hf
+    simp only [beq_iff_eq] at h1
+    exact List.mem_map.mpr ⟨kv, h2, h1⟩
+
 theorem tag?_some_mem {t : List (Name × Tagged)} {o : List (Name × Value)} {n : Name} {x : Tagged}
     (h : Asg.tag? ⟨t, o⟩ n = some x) : n ∈ t.map (·.1) := by
   simp only [Asg.tag?] at h
@@ -2673,27 +2692,18 @@ theorem disjoint_iff {a b : List Name} : disjoint a b = true ↔ ∀ x ∈ a, x 
 theorem AsgEq.ext_comm (a δ ε : Asg) (ht : ∀ x ∈ tagKeys δ, x ∉ tagKeys ε)
     (ho : ∀ x ∈ outKeys δ, x ∉ outKeys ε) : AsgEq (ext (ext a δ) ε) (ext (ext a ε) δ) := by
   refine ⟨fun n => ?_, ?_, fun n => ?_⟩
-  · simp only [ext]
-    rw [tag?_append, tag?_append, tag?_append, tag?_append]
-    cases hA : Asg.tag? ⟨a.tags, (a.outs ++ δ.outs) ++ ε.outs⟩ n with
-    | some x =>
-      have e1 : Asg.tag? ⟨a.tags, (a.outs ++ ε.outs) ++ δ.outs⟩ n = some x := hA
-      simp [e1]
+  · show lookupTag ((a.tags ++ δ.tags) ++ ε.tags) n = lookupTag ((a.tags ++ ε.tags) ++ δ.tags) n
+    simp only [lookupTag_append]
+    cases lookupTag a.tags n with
+    | some x => simp
     | none =>
-      have e1 : Asg.tag? ⟨a.tags, (a.outs ++ ε.outs) ++ δ.outs⟩ n = none := hA
-      simp only [e1, Option.none_or]
-      cases hD : Asg.tag? ⟨δ.tags, (a.outs ++ δ.outs) ++ ε.outs⟩ n with
-      | none =>
-        have e2 : Asg.tag? ⟨δ.tags, (a.outs ++ ε.outs) ++ δ.outs⟩ n = none := hD
-        simp [e2]
+      simp only [Option.none_or]
+      cases hD : lookupTag δ.tags n with
+      | none => simp
       | some x =>
-        have e2 : Asg.tag? ⟨δ.tags, (a.outs ++ ε.outs) ++ δ.outs⟩ n = some x := hD
-        have hn : n ∈ tagKeys δ := tag?_some_mem hD
-        cases hE : Asg.tag? ⟨ε.tags, (a.outs ++ δ.outs) ++ ε.outs⟩ n with
-        | none =>
-          have e3 : Asg.tag? ⟨ε.tags, (a.outs ++ ε.outs) ++ δ.outs⟩ n = none := hE
-          simp [e2, e3]
-        | some y => exact absurd (tag?_some_mem hE) (ht n hn)
+        cases hE : lookupTag ε.tags n with
+        | none => simp
+        | some y => exact absurd (lookupTag_some_mem hE) (ht n (lookupTag_some_mem hD))
   · simp only [ext, List.append_assoc]
     exact List.Perm.append_left _ List.perm_append_comm
   · simp only [ext, List.find?_append]
@@ -2756,13 +2766,7 @@ theorem evalFields_swap_prop (env : SpecEnv) (fuel : Nat) (owners : List Name) (
     (h : isProp f = true ∨ isProp g = true) (rest : List QField) (v : Option VertexId)
     (as : List Asg) :
     evalFields env fuel owners (g :: f :: rest) v as = evalFields env fuel owners (f :: g :: rest) v as := by
-  rw [evalFields_cons _ _ _ g, evalFields_cons _ _ _ f, evalFields_cons _ _ _ f rest,
-    evalFields_cons _ _ _ g rest]
-  rcases h with h | h
-  · simp only [evalFields_single_prop_like _ _ _ f h]
-    cases evalFields env fuel owners [g] v as <;> simp [evalFields_single_prop_like _ _ _ f h]
-  · simp only [evalFields_single_prop_like _ _ _ g h]
-    cases evalFields env fuel owners [f] v as <;> simp [evalFields_single_prop_like _ _ _ g h]
+  cases f <;> cases g <;> simp [isProp] at h <;> simp only [evalFields_prop, evalFields_edge]
 
 /-- The hypotheses of a swap at position `j`: the two fields there. -/
 theorem swapAdj_spec {α : Type} (j : Nat) (l : List α) (f g : α) (hf : l[j]? = some f)
@@ -2845,10 +2849,12 @@ theorem bindProps_swap (env : SpecEnv) (v : Option VertexId) (f g : QField)
         foldl_bindDir_eq_ext v _ d']
       apply AsgEq.ext_comm
       · intro x hx hx'
-        simp only [propDelta, tagKeys_foldl_bindDir, tagKeys, emptyAsg, List.map_nil, List.nil_append] at hx hx'
+        rw [propDelta, tagKeys_foldl_bindDir] at hx hx'
+        simp only [tagKeys, emptyAsg, List.map_nil, List.nil_append] at hx hx'
         exact hok.1 x hx' hx
       · intro x hx hx'
-        simp only [propDelta, outKeys_foldl_bindDir, outKeys, emptyAsg, List.map_nil, List.nil_append] at hx hx'
+        rw [propDelta, outKeys_foldl_bindDir] at hx hx'
+        simp only [outKeys, emptyAsg, List.map_nil, List.nil_append] at hx hx'
         exact hok.2 x hx' hx
 
 theorem swapPropsOK_isProp {f g : QField} (h : swapPropsOK f g = true) :
@@ -2891,7 +2897,8 @@ theorem swapProps_local (env : SpecEnv) (j : Nat) (t : QNode) (f g : QField)
         | fuel => rfl
       rw [hE, propFiltersHold_congr env _ _ v _ (fun n _ => hA.tags n)] at h0
       -- the verdicts
-      set b := bindProps env v (pre ++ f :: g :: post) a with hb
+      obtain ⟨b, hb⟩ : ∃ b, b = bindProps env v (pre ++ f :: g :: post) a := ⟨_, rfl⟩
+      rw [← hb] at h0 h1 hA
       have hv : ∀ x y, propFiltersHold env b v (pre ++ g :: f :: post) = .ok x →
           propFiltersHold env b v (pre ++ f :: g :: post) = .ok y → x = y := by
         intro x y hx hy
@@ -2940,5 +2947,532 @@ theorem asgs_swapProps (env : SpecEnv) (q : Query) (p : Path) (j : Nat) (f g : Q
   cases i with
   | false => exact h'
   | true => simpa [pick, onQuery_modNode_id] using h
+
+
+/-! ### small evaluation lemmas for the directive classifiers -/
+
+@[simp] theorem dirOutName_filter (o : FOp) (a : QArg) : dirOutName (.filter o a) = none := rfl
+@[simp] theorem dirOutName_tag (n : Name) : dirOutName (.tag n) = none := rfl
+@[simp] theorem dirOutName_output (n : Name) : dirOutName (.output n) = some n := rfl
+@[simp] theorem dirOutNames_filter (o : FOp) (a : QArg) : dirOutNames (.filter o a) = [] := rfl
+@[simp] theorem dirOutNames_tag (n : Name) : dirOutNames (.tag n) = [] := rfl
+@[simp] theorem dirOutNames_output (n : Name) : dirOutNames (.output n) = [n] := rfl
+@[simp] theorem fdirOutName_co (n : Name) : fdirOutName (.countOutput n) = some n := rfl
+@[simp] theorem fdirOutName_ct (n : Name) : fdirOutName (.countTag n) = none := rfl
+@[simp] theorem fdirOutName_cf (o : FOp) (a : QArg) : fdirOutName (.countFilter o a) = none := rfl
+@[simp] theorem fdirFilter_co (n : Name) : fdirFilter (.countOutput n) = none := rfl
+@[simp] theorem fdirFilter_ct (n : Name) : fdirFilter (.countTag n) = none := rfl
+@[simp] theorem fdirFilter_cf (o : FOp) (a : QArg) : fdirFilter (.countFilter o a) = some (o, a) := rfl
+@[simp] theorem countOutOf_co (c : Value) (n : Name) : countOutOf c (.countOutput n) = some (n, c) := rfl
+@[simp] theorem countOutOf_ct (c : Value) (n : Name) : countOutOf c (.countTag n) = none := rfl
+@[simp] theorem countOutOf_cf (c : Value) (o : FOp) (a : QArg) : countOutOf c (.countFilter o a) = none := rfl
+@[simp] theorem fdirTagDefs_co (n : Name) : fdirTagDefs (.countOutput n) = [] := rfl
+@[simp] theorem fdirTagDefs_ct (n : Name) : fdirTagDefs (.countTag n) = [n] := rfl
+@[simp] theorem fdirTagDefs_cf (o : FOp) (a : QArg) : fdirTagDefs (.countFilter o a) = [] := rfl
+
+/-! ### the frame property
+
+Evaluating a subtree under an assignment only *extends* the assignment, and the extensions depend
+on the assignment only through the tags the subtree reads. -/
+
+/-- The two assignments give the same value to every tag in `U`. -/
+def Agree (U : List Name) (a b : Asg) : Prop := ∀ n ∈ U, a.tag? n = b.tag? n
+
+theorem Agree.mono {U U' : List Name} {a b : Asg} (h : Agree U a b) (hs : ∀ n ∈ U', n ∈ U) :
+    Agree U' a b := fun n hn => h n (hs n hn)
+
+theorem tag?_ext (a δ : Asg) (n : Name) : (ext a δ).tag? n = (a.tag? n).or (lookupTag δ.tags n) := by
+  show lookupTag (a.tags ++ δ.tags) n = _
+  rw [lookupTag_append]; rfl
+
+theorem Agree.ext {U : List Name} {a b : Asg} (h : Agree U a b) (δ : Asg) :
+    Agree U (ext a δ) (ext b δ) := by
+  intro n hn
+  rw [tag?_ext, tag?_ext, h n hn]
+
+/-- Every extension in `Δ` binds tags among `T` and outputs among `O` only. -/
+def Bounded (T O : List Name) (Δ : List Asg) : Prop :=
+  ∀ δ ∈ Δ, (∀ x ∈ tagKeys δ, x ∈ T) ∧ (∀ x ∈ outKeys δ, x ∈ O)
+
+theorem Bounded.mono {T O T' O' : List Name} {Δ : List Asg} (h : Bounded T O Δ)
+    (hT : ∀ x ∈ T, x ∈ T') (hO : ∀ x ∈ O, x ∈ O') : Bounded T' O' Δ :=
+  fun δ hδ => ⟨fun x hx => hT x ((h δ hδ).1 x hx), fun x hx => hO x ((h δ hδ).2 x hx)⟩
+
+theorem Bounded.append {T O : List Name} {Δ Δ' : List Asg} (h : Bounded T O Δ) (h' : Bounded T O Δ') :
+    Bounded T O (Δ ++ Δ') := by
+  intro δ hδ
+  rcases List.mem_append.mp hδ with hδ | hδ
+  · exact h δ hδ
+  · exact h' δ hδ
+
+theorem tagKeys_ext (δ ε : Asg) : tagKeys (ext δ ε) = tagKeys δ ++ tagKeys ε := by simp [tagKeys, ext]
+theorem outKeys_ext (δ ε : Asg) : outKeys (ext δ ε) = outKeys δ ++ outKeys ε := by simp [outKeys, ext]
+
+/-- Both results, when they exist, are the same list of extensions applied to `a` resp. `b`. -/
+def FrameOK (T O : List Name) (a b : Asg) (X Y : R (List Asg)) : Prop :=
+  ∀ La Lb, X = .ok La → Y = .ok Lb →
+    ∃ Δ, La = Δ.map (ext a) ∧ Lb = Δ.map (ext b) ∧ Bounded T O Δ
+
+theorem FrameOK.mono {T O T' O' : List Name} {a b : Asg} {X Y : R (List Asg)} (h : FrameOK T O a b X Y)
+    (hT : ∀ x ∈ T, x ∈ T') (hO : ∀ x ∈ O, x ∈ O') : FrameOK T' O' a b X Y := by
+  intro La Lb hX hY
+  obtain ⟨Δ, h1, h2, h3⟩ := h La Lb hX hY
+  exact ⟨Δ, h1, h2, h3.mono hT hO⟩
+
+theorem FrameOK.ofFlatMapR {α : Type} {T O : List Name} {a b : Asg} (fa fb : α → R (List Asg))
+    (l : List α) (h : ∀ x ∈ l, FrameOK T O a b (fa x) (fb x)) :
+    FrameOK T O a b (flatMapR fa l) (flatMapR fb l) := by
+  induction l with
+  | nil =>
+    intro La Lb hX hY
+    simp only [flatMapR, R.ok.injEq] at hX hY
+    exact ⟨[], by simp [← hX], by simp [← hY], fun _ h => by simp at h⟩
+  | cons x l ih =>
+    intro La Lb hX hY
+    obtain ⟨la, La', h1, h2, rfl⟩ := flatMapR_cons_ok.mp hX
+    obtain ⟨lb, Lb', h3, h4, rfl⟩ := flatMapR_cons_ok.mp hY
+    obtain ⟨Δ1, e1, e2, b1⟩ := h x (by simp) la lb h1 h3
+    obtain ⟨Δ2, e3, e4, b2⟩ := ih (fun y hy => h y (by simp [hy])) La' Lb' h2 h4
+    exact ⟨Δ1 ++ Δ2, by simp [e1, e3], by simp [e2, e4], b1.append b2⟩
+
+/-- Starting from extensions of the two bases. -/
+theorem FrameOK.ofFlatMapR_ext {T O : List Name} {a b : Asg} (f : Asg → R (List Asg)) (δs : List Asg)
+    (hδ : Bounded T O δs)
+    (h : ∀ δ ∈ δs, FrameOK T O (ext a δ) (ext b δ) (f (ext a δ)) (f (ext b δ))) :
+    FrameOK T O a b (flatMapR f (δs.map (ext a))) (flatMapR f (δs.map (ext b))) := by
+  rw [flatMapR_map_dom, flatMapR_map_dom]
+  apply FrameOK.ofFlatMapR
+  intro δ hδm La Lb hX hY
+  obtain ⟨Δ, e1, e2, b1⟩ := h δ hδm La Lb hX hY
+  refine ⟨Δ.map (ext δ), ?_, ?_, ?_⟩
+  · rw [e1]; simp [ext_assoc]
+  · rw [e2]; simp [ext_assoc]
+  · intro ε hε
+    obtain ⟨ε', hε', rfl⟩ := List.mem_map.mp hε
+    constructor
+    · intro x hx
+      rw [tagKeys_ext] at hx
+      rcases List.mem_append.mp hx with hx | hx
+      · exact (hδ δ hδm).1 x hx
+      · exact (b1 ε' hε').1 x hx
+    · intro x hx
+      rw [outKeys_ext] at hx
+      rcases List.mem_append.mp hx with hx | hx
+      · exact (hδ δ hδm).2 x hx
+      · exact (b1 ε' hε').2 x hx
+
+/-! #### the pieces of `evalNode` as extensions -/
+
+theorem foldl_step_ext (step : Asg → FDir → Asg)
+    (h : ∀ a δ d, step (ext a δ) d = ext a (step δ d)) (fds : List FDir) (a δ : Asg) :
+    fds.foldl step (ext a δ) = ext a (fds.foldl step δ) := by
+  induction fds generalizing δ with
+  | nil => rfl
+  | cons d fds ih => simp only [List.foldl_cons, h, ih]
+
+theorem missStep_ext (a δ : Asg) (d : FDir) : missStep (ext a δ) d = ext a (missStep δ d) := by
+  cases d <;> simp [missStep, ext, List.append_assoc]
+
+theorem tagStep_ext (count : Value) (a δ : Asg) (d : FDir) :
+    tagStep count (ext a δ) d = ext a (tagStep count δ d) := by
+  cases d <;> simp [tagStep, ext, List.append_assoc]
+
+theorem bindProps_ext (env : SpecEnv) (v : Option VertexId) (fields : List QField) (a δ : Asg) :
+    bindProps env v fields (ext a δ) = ext a (bindProps env v fields δ) := by
+  induction fields generalizing δ with
+  | nil => simp [bindProps]
+  | cons fld rest ih =>
+    cases fld with
+    | prop nm dirs => simp only [bindProps_prop, foldl_bindDir_ext, ih]
+    | edge nm ps k c => simp only [bindProps, ih]
+
+/-- The tags the properties of a node define. -/
+def propTagDefs : List QField → List Name
+  | [] => []
+  | .prop _ dirs :: rest => dirs.flatMap dirTagDefs ++ propTagDefs rest
+  | .edge .. :: rest => propTagDefs rest
+
+/-- The outputs the properties of a node define. -/
+def propOutNames : List QField → List Name
+  | [] => []
+  | .prop _ dirs :: rest => dirs.flatMap dirOutNames ++ propOutNames rest
+  | .edge .. :: rest => propOutNames rest
+
+theorem tagKeys_bindProps (env : SpecEnv) (v : Option VertexId) (fields : List QField) (δ : Asg) :
+    tagKeys (bindProps env v fields δ) = tagKeys δ ++ propTagDefs fields := by
+  induction fields generalizing δ with
+  | nil => simp [bindProps, propTagDefs]
+  | cons fld rest ih =>
+    cases fld with
+    | prop nm dirs => simp only [bindProps_prop, ih, tagKeys_foldl_bindDir, propTagDefs, List.append_assoc]
+    | edge nm ps k c => simp only [bindProps, ih, propTagDefs]
+
+theorem outKeys_bindProps (env : SpecEnv) (v : Option VertexId) (fields : List QField) (δ : Asg) :
+    outKeys (bindProps env v fields δ) = outKeys δ ++ propOutNames fields := by
+  induction fields generalizing δ with
+  | nil => simp [bindProps, propOutNames]
+  | cons fld rest ih =>
+    cases fld with
+    | prop nm dirs => simp only [bindProps_prop, ih, outKeys_foldl_bindDir, propOutNames, List.append_assoc]
+    | edge nm ps k c => simp only [bindProps, ih, propOutNames]
+
+theorem propTagDefs_sub (fields : List QField) : ∀ x ∈ propTagDefs fields, x ∈ tagDefsFields fields := by
+  induction fields with
+  | nil => simp [propTagDefs]
+  | cons fld rest ih =>
+    cases fld with
+    | prop nm dirs =>
+      intro x hx
+      simp only [propTagDefs, tagDefsFields, List.mem_append] at hx ⊢
+      rcases hx with hx | hx
+      · exact Or.inl hx
+      · exact Or.inr (ih x hx)
+    | edge nm ps k c =>
+      intro x hx
+      simp only [propTagDefs] at hx
+      simp only [tagDefsFields, List.mem_append]
+      exact Or.inr (ih x hx)
+
+theorem flatMap_dirOutNames (dirs : List Dir) : dirs.flatMap dirOutNames = dirs.filterMap dirOutName := by
+  induction dirs with
+  | nil => rfl
+  | cons d dirs ih => cases d <;> simp [ih, List.filterMap_cons]
+
+theorem propOutNames_sub (fields : List QField) : ∀ x ∈ propOutNames fields, x ∈ outNamesFields fields := by
+  induction fields with
+  | nil => simp [propOutNames]
+  | cons fld rest ih =>
+    cases fld with
+    | prop nm dirs =>
+      intro x hx
+      simp only [propOutNames, outNamesFields_prop, List.mem_append, flatMap_dirOutNames] at hx ⊢
+      rcases hx with hx | hx
+      · exact Or.inl hx
+      · exact Or.inr (ih x hx)
+    | edge nm ps k c =>
+      intro x hx
+      simp only [propOutNames] at hx
+      simp only [outNamesFields_edge, List.mem_append]
+      exact Or.inr (ih x hx)
+
+/-- The tags the edges among `fields` can add to an assignment. -/
+theorem edge_tagDefs_sub (nm : Name) (ps : Params) (k : Kind) (c : QNode) (rest : List QField) :
+    (∀ x ∈ (match k with | .fold _ => kindTagDefs k | _ => tagDefs c), x ∈ tagDefsFields (.edge nm ps k c :: rest)) ∧
+      (∀ x ∈ tagDefsFields rest, x ∈ tagDefsFields (.edge nm ps k c :: rest)) := by
+  constructor <;> intro x hx <;> simp only [tagDefsFields, List.mem_append]
+  · exact Or.inl hx
+  · exact Or.inr hx
+
+theorem tagKeys_foldl_missStep (fds : List FDir) (δ : Asg) :
+    tagKeys (fds.foldl missStep δ) = tagKeys δ ++ fds.flatMap fdirTagDefs := by
+  induction fds generalizing δ with
+  | nil => simp
+  | cons d fds ih =>
+    simp only [List.foldl_cons, ih, List.flatMap_cons]
+    cases d <;> simp [missStep, tagKeys]
+
+theorem tagKeys_foldl_tagStep (count : Value) (fds : List FDir) (δ : Asg) :
+    tagKeys (fds.foldl (tagStep count) δ) = tagKeys δ ++ fds.flatMap fdirTagDefs := by
+  induction fds generalizing δ with
+  | nil => simp
+  | cons d fds ih =>
+    simp only [List.foldl_cons, ih, List.flatMap_cons]
+    cases d <;> simp [tagStep, tagKeys]
+
+theorem outKeys_foldl_tagStep (count : Value) (fds : List FDir) (δ : Asg) :
+    outKeys (fds.foldl (tagStep count) δ) = outKeys δ := by
+  induction fds generalizing δ with
+  | nil => rfl
+  | cons d fds ih =>
+    simp only [List.foldl_cons, ih]
+    cases d <;> simp [tagStep, outKeys]
+
+theorem outKeys_foldl_missStep (fds : List FDir) (δ : Asg) :
+    outKeys (fds.foldl missStep δ) = outKeys δ ++ fds.filterMap fdirOutName := by
+  induction fds generalizing δ with
+  | nil => simp
+  | cons d fds ih =>
+    simp only [List.foldl_cons, ih]
+    cases d <;> simp [missStep, outKeys, List.filterMap_cons]
+
+theorem map_fst_countOutOf (count : Value) (fds : List FDir) :
+    (fds.filterMap (countOutOf count)).map (·.1) = fds.filterMap fdirOutName := by
+  induction fds with
+  | nil => rfl
+  | cons d fds ih => cases d <;> simp [ih, List.filterMap_cons]
+
+/-- "`evalNode` at this fuel has the frame property" — the induction hypothesis. -/
+def NodeFrame (env : SpecEnv) (fuel : Nat) : Prop :=
+  ∀ (n : QNode) (v : Option VertexId) (a b : Asg), Agree (tagUses n) a b →
+    FrameOK (tagDefs n) (outNames n) a b (evalNode env fuel n v a) (evalNode env fuel n v b)
+
+theorem foldFinish_frame (env : SpecEnv) (v : Option VertexId) (fds : List FDir) (names : List Name)
+    (a b : Asg) (hU : Agree (fds.flatMap fdirTagUses) a b) (Δc : List Asg) (ta tb : List (Name × Tagged)) :
+    FrameOK (fds.flatMap fdirTagDefs) (fds.filterMap fdirOutName ++ names) a b
+      (foldFinish env a v fds names (Δc.map (ext ⟨ta, []⟩)))
+      (foldFinish env b v fds names (Δc.map (ext ⟨tb, []⟩))) := by
+  intro La Lb hX hY
+  have hc : countOf (Δc.map (ext ⟨tb, []⟩)) = countOf (Δc.map (ext ⟨ta, []⟩)) := by simp [countOf]
+  have hl : ∀ n : Name, (Δc.map (ext ⟨tb, []⟩)).map (fun e => lookupOut e n) =
+      (Δc.map (ext ⟨ta, []⟩)).map (fun e => lookupOut e n) := by
+    intro n
+    simp only [List.map_map]
+    apply List.map_congr_left
+    intro δ _
+    simp [Function.comp, lookupOut, ext]
+  generalize hcount : countOf (Δc.map (ext ⟨ta, []⟩)) = count at hX hY hc
+  have eA : fds.foldl (tagStep count) a = ext a (fds.foldl (tagStep count) emptyAsg) := by
+    have := foldl_step_ext (tagStep count) (tagStep_ext count) fds a emptyAsg
+    rwa [ext_empty] at this
+  have eB : fds.foldl (tagStep count) b = ext b (fds.foldl (tagStep count) emptyAsg) := by
+    have := foldl_step_ext (tagStep count) (tagStep_ext count) fds b emptyAsg
+    rwa [ext_empty] at this
+  simp only [foldFinish, hcount, hc] at hX hY
+  have hF : filtersHold env (fds.foldl (tagStep count) a) v count (fds.filterMap fdirFilter) =
+      filtersHold env (fds.foldl (tagStep count) b) v count (fds.filterMap fdirFilter) := by
+    apply filtersHold_congr
+    intro f hf n hn
+    rw [eA, eB]
+    apply (hU.ext _)
+    simp only [List.mem_filterMap] at hf
+    obtain ⟨d, hd, hdf⟩ := hf
+    rw [List.mem_flatMap]
+    refine ⟨d, hd, ?_⟩
+    cases d with
+    | countFilter op arg =>
+      simp only [fdirFilter, Option.some.injEq] at hdf
+      subst hdf
+      simp only at hn
+      subst hn
+      simp [fdirTagUses]
+    | countTag t => simp [fdirFilter] at hdf
+    | countOutput o => simp [fdirFilter] at hdf
+  rw [hF] at hX
+  cases hv : filtersHold env (fds.foldl (tagStep count) b) v count (fds.filterMap fdirFilter) with
+  | ok ok =>
+    rw [hv] at hX hY
+    cases ok with
+    | false =>
+      simp only [R.ok.injEq] at hX hY
+      exact ⟨[], by simp [← hX], by simp [← hY], fun _ h => by simp at h⟩
+    | true =>
+      simp only [R.ok.injEq] at hX hY
+      let τ := fds.foldl (tagStep count) emptyAsg
+      let φ : Asg := Asg.mk τ.tags (τ.outs ++ fds.filterMap (countOutOf count) ++
+        names.map (fun n => (n, Value.list ((Δc.map (ext ⟨ta, []⟩)).map (fun e => lookupOut e n)))))
+      refine ⟨[φ], ?_, ?_, ?_⟩
+      · rw [← hX]
+        simp only [foldOk, hcount, eA, List.map_cons, List.map_nil, List.cons.injEq, and_true]
+        simp [ext, φ, τ, List.append_assoc]
+      · rw [← hY]
+        simp only [foldOk, hcount, hc, hl, eB, List.map_cons, List.map_nil, List.cons.injEq, and_true]
+        simp [ext, φ, τ, List.append_assoc]
+      · intro δ hδ
+        simp only [List.mem_singleton] at hδ
+        subst hδ
+        constructor
+        · intro x hx
+          have : tagKeys φ = tagKeys τ := rfl
+          rw [this, tagKeys_foldl_tagStep] at hx
+          simpa [tagKeys, emptyAsg] using hx
+        · intro x hx
+          have : outKeys φ = outKeys τ ++ (fds.filterMap (countOutOf count)).map (·.1) ++ names := by
+            simp only [outKeys, φ, List.map_append, List.map_map]
+            congr 1
+            exact List.map_id'' (fun _ => rfl) names
+          rw [this, outKeys_foldl_tagStep, map_fst_countOutOf] at hx
+          simpa [outKeys, emptyAsg] using hx
+  | panic s => rw [hv] at hY; cases hY
+  | fuel => rw [hv] at hY; cases hY
+
+theorem evalEdge_frame_of {env : SpecEnv} {fuel : Nat} (ih : NodeFrame env fuel) (owners : List Name)
+    (nm : Name) (ps : Params) (k : Kind) (c : QNode) (v : Option VertexId) (a b : Asg)
+    (hU : Agree (kindTagUses k ++ tagUses c) a b) :
+    FrameOK (match k with | .fold _ => kindTagDefs k | _ => tagDefs c) (kindOutNames k ++ outNames c) a b
+      (evalEdge env fuel owners nm ps k c v a) (evalEdge env fuel owners nm ps k c v b) := by
+  have hUc : Agree (tagUses c) a b := hU.mono (fun n hn => List.mem_append.mpr (Or.inr hn))
+  have hchild : ∀ v, FrameOK (tagDefs c) (kindOutNames k ++ outNames c) a b
+      (evalNode env fuel c v a) (evalNode env fuel c v b) :=
+    fun v => (ih c v a b hUc).mono (fun _ h => h) (fun x hx => List.mem_append.mpr (Or.inr hx))
+  cases k with
+  | plain =>
+    simp only [evalEdge_plain]
+    cases v with
+    | none => exact hchild none
+    | some x => exact FrameOK.ofFlatMapR _ _ _ (fun n _ => hchild (some n))
+  | optional =>
+    simp only [evalEdge_optional]
+    split
+    · exact hchild none
+    · exact FrameOK.ofFlatMapR _ _ _ (fun n _ => hchild (some n))
+  | recurse d =>
+    simp only [evalEdge_recurse]
+    cases v with
+    | none => exact hchild none
+    | some x => exact FrameOK.ofFlatMapR _ _ _ (fun n _ => hchild (some n))
+  | fold fds =>
+    simp only [evalEdge_fold, kindTagDefs, kindOutNames]
+    cases v with
+    | none =>
+      intro La Lb hX hY
+      simp only [R.ok.injEq] at hX hY
+      have eA : foldMissing a fds (outNames c) = ext a (foldMissing emptyAsg fds (outNames c)) := by
+        simp only [foldMissing]
+        have := foldl_step_ext missStep missStep_ext fds a
+          { tags := [], outs := (outNames c).map fun n => (n, Value.null) }
+        simpa [ext, emptyAsg] using this
+      have eB : foldMissing b fds (outNames c) = ext b (foldMissing emptyAsg fds (outNames c)) := by
+        simp only [foldMissing]
+        have := foldl_step_ext missStep missStep_ext fds b
+          { tags := [], outs := (outNames c).map fun n => (n, Value.null) }
+        simpa [ext, emptyAsg] using this
+      refine ⟨[foldMissing emptyAsg fds (outNames c)], by simp [← hX, eA], by simp [← hY, eB], ?_⟩
+      intro δ hδ
+      simp only [List.mem_singleton] at hδ
+      subst hδ
+      constructor
+      · intro x hx
+        simp only [foldMissing, tagKeys_foldl_missStep] at hx
+        simpa [tagKeys, emptyAsg] using hx
+      · intro x hx
+        simp only [foldMissing, outKeys_foldl_missStep] at hx
+        simp only [outKeys, emptyAsg, List.nil_append, List.map_map, List.mem_append] at hx
+        simp only [List.mem_append]
+        rcases hx with hx | hx
+        · right; simpa [Function.comp] using hx
+        · left; exact hx
+    | some x =>
+      intro La Lb hX hY
+      simp only at hX hY
+      cases he0 : flatMapR (fun n => evalNode env fuel c (some n) { tags := a.tags, outs := [] })
+          (edgeNbrs env owners nm ps (some x)) with
+      | ok ea =>
+        cases he1 : flatMapR (fun n => evalNode env fuel c (some n) { tags := b.tags, outs := [] })
+            (edgeNbrs env owners nm ps (some x)) with
+        | ok eb =>
+          rw [he0] at hX
+          rw [he1] at hY
+          have hU0 : Agree (tagUses c) { tags := a.tags, outs := [] } { tags := b.tags, outs := [] } :=
+            fun n hn => hUc n hn
+          obtain ⟨Δc, e1, e2, _⟩ := FrameOK.ofFlatMapR (T := tagDefs c) (O := outNames c)
+            (fun n => evalNode env fuel c (some n) { tags := a.tags, outs := [] })
+            (fun n => evalNode env fuel c (some n) { tags := b.tags, outs := [] })
+            (edgeNbrs env owners nm ps (some x)) (fun n _ => ih c (some n) _ _ hU0) ea eb he0 he1
+          subst e1; subst e2
+          have hUk : Agree (fds.flatMap fdirTagUses) a b :=
+            hU.mono (fun n hn => List.mem_append.mpr (Or.inl (by simpa [kindTagUses] using hn)))
+          exact foldFinish_frame env (some x) fds (outNames c) a b hUk Δc a.tags b.tags La Lb hX hY
+        | panic s => rw [he1] at hY; cases hY
+        | fuel => rw [he1] at hY; cases hY
+      | panic s => rw [he0] at hX; cases hX
+      | fuel => rw [he0] at hX; cases hX
+
+
+theorem evalFields_frame_of {env : SpecEnv} {fuel : Nat} (ih : NodeFrame env fuel) (owners : List Name)
+    (v : Option VertexId) (a b : Asg) (T O : List Name) (fs : List QField)
+    (hT : ∀ x ∈ tagDefsFields fs, x ∈ T) (hO : ∀ x ∈ outNamesFields fs, x ∈ O)
+    (hU : Agree (tagUsesFields fs) a b) (δs : List Asg) (hδ : Bounded T O δs) :
+    FrameOK T O a b (evalFields env fuel owners fs v (δs.map (ext a)))
+      (evalFields env fuel owners fs v (δs.map (ext b))) := by
+  induction fs generalizing δs with
+  | nil =>
+    intro La Lb hX hY
+    simp only [evalFields_nil, R.ok.injEq] at hX hY
+    exact ⟨δs, hX.symm, hY.symm, hδ⟩
+  | cons fld rest ihf =>
+    cases fld with
+    | prop nm dirs =>
+      simp only [evalFields_prop]
+      apply ihf
+      · intro x hx; exact hT x (by simp only [tagDefsFields, List.mem_append]; exact Or.inr hx)
+      · intro x hx; exact hO x (by simp only [outNamesFields_prop, List.mem_append]; exact Or.inr hx)
+      · exact hU.mono (fun n hn => by simp only [tagUsesFields, List.mem_append]; exact Or.inr hn)
+      · exact hδ
+    | edge nm ps k c =>
+      intro La Lb hX hY
+      simp only [evalFields_edge] at hX hY
+      cases hxa : flatMapR (fun a' => evalEdge env fuel owners nm ps k c v a') (δs.map (ext a)) with
+      | ok Xa =>
+        cases hxb : flatMapR (fun a' => evalEdge env fuel owners nm ps k c v a') (δs.map (ext b)) with
+        | ok Xb =>
+          rw [hxa] at hX
+          rw [hxb] at hY
+          have hedge : ∀ δ ∈ δs, FrameOK T O (ext a δ) (ext b δ)
+              (evalEdge env fuel owners nm ps k c v (ext a δ)) (evalEdge env fuel owners nm ps k c v (ext b δ)) := by
+            intro δ _
+            have hUe : Agree (kindTagUses k ++ tagUses c) (ext a δ) (ext b δ) :=
+              (hU.mono (fun n hn => by
+                simp only [tagUsesFields, List.mem_append] at hn ⊢
+                exact Or.inl hn)).ext δ
+            refine (evalEdge_frame_of ih owners nm ps k c v _ _ hUe).mono ?_ ?_
+            · intro x hx
+              exact hT x ((edge_tagDefs_sub nm ps k c rest).1 x hx)
+            · intro x hx
+              exact hO x (by
+                simp only [outNamesFields_edge, List.mem_append] at hx ⊢
+                exact Or.inl hx)
+          obtain ⟨Δ', e1, e2, b1⟩ := FrameOK.ofFlatMapR_ext
+            (fun a' => evalEdge env fuel owners nm ps k c v a') δs hδ hedge Xa Xb hxa hxb
+          subst e1; subst e2
+          refine ihf ?_ ?_ ?_ Δ' b1 La Lb hX hY
+          · intro x hx; exact hT x ((edge_tagDefs_sub nm ps k c rest).2 x hx)
+          · intro x hx
+            exact hO x (by simp only [outNamesFields_edge, List.mem_append]; exact Or.inr hx)
+          · exact hU.mono (fun n hn => by simp only [tagUsesFields, List.mem_append]; exact Or.inr hn)
+        | panic s => rw [hxb] at hY; cases hY
+        | fuel => rw [hxb] at hY; cases hY
+      | panic s => rw [hxa] at hX; cases hX
+      | fuel => rw [hxa] at hX; cases hX
+
+/-- The frame property of the denotation. -/
+theorem evalNode_frame (env : SpecEnv) (fuel : Nat) : NodeFrame env fuel := by
+  induction fuel with
+  | zero => intro n v a b _ La Lb hX _; simp [evalNode_zero] at hX
+  | succ fuel ih =>
+    intro n v a b hU La Lb hX hY
+    obtain ⟨ct, fields⟩ := n
+    simp only [tagUses] at hU
+    simp only [evalNode_succ, afterFilters_eq_gate] at hX hY
+    have eA : bindProps env v fields a = ext a (bindProps env v fields emptyAsg) := by
+      have := bindProps_ext env v fields a emptyAsg
+      rwa [ext_empty] at this
+    have eB : bindProps env v fields b = ext b (bindProps env v fields emptyAsg) := by
+      have := bindProps_ext env v fields b emptyAsg
+      rwa [ext_empty] at this
+    have nilCase : ∃ Δ, ([] : List Asg) = Δ.map (ext a) ∧ ([] : List Asg) = Δ.map (ext b) ∧
+        Bounded (tagDefs (.mk ct fields)) (outNames (.mk ct fields)) Δ :=
+      ⟨[], rfl, rfl, fun _ h => by simp at h⟩
+    by_cases hco : coercionOk env ct v = true
+    · simp only [hco, if_true] at hX hY
+      rw [eA] at hX
+      rw [eB] at hY
+      rw [propFiltersHold_congr env _ _ v fields (fun n hn => (hU.ext _) n hn)] at hX
+      cases hp : propFiltersHold env (ext b (bindProps env v fields emptyAsg)) v fields with
+      | ok ok =>
+        rw [hp] at hX hY
+        cases ok with
+        | false =>
+          simp only [gate, R.ok.injEq] at hX hY
+          rw [← hX, ← hY]; exact nilCase
+        | true =>
+          simp only [gate] at hX hY
+          have hb : Bounded (tagDefsFields fields) (outNamesFields fields) [bindProps env v fields emptyAsg] := by
+            intro δ hδ
+            simp only [List.mem_singleton] at hδ
+            subst hδ
+            constructor
+            · intro x hx
+              rw [tagKeys_bindProps] at hx
+              exact propTagDefs_sub fields x (by simpa [tagKeys, emptyAsg] using hx)
+            · intro x hx
+              rw [outKeys_bindProps] at hx
+              exact propOutNames_sub fields x (by simpa [outKeys, emptyAsg] using hx)
+          exact evalFields_frame_of ih (ownersOf env v) v a b (tagDefsFields fields) (outNamesFields fields)
+            fields (fun _ h => h) (fun _ h => h) hU [bindProps env v fields emptyAsg] hb La Lb hX hY
+      | panic s => rw [hp] at hY; simp [gate] at hY
+      | fuel => rw [hp] at hY; simp [gate] at hY
+    · simp only [hco] at hX hY
+      simp only [Bool.false_eq_true, if_false, R.ok.injEq] at hX hY
+      rw [← hX, ← hY]; exact nilCase
 
 end TF.SpecMeta
